@@ -989,3 +989,81 @@ Proof.
       inversion Hs; subst; vm_compute; repeat split; try reflexivity; discriminate. }
   exact (G _ H s eq_refl).
 Qed.
+
+(* ---- the statements of Props.v that need a little glue ---- *)
+
+Lemma exact_balances_explicit : forall v r d b,
+  in_range v r -> close_proposal v r = inr (d, b) ->
+  b = final_local v r /\
+  0 <= final_local v r /\ 0 <= final_remote v r /\
+  Permutation (d_outs d)
+    ((if final_local v r <? v_local_dust v then []
+      else [(match r_sequence r with
+             | Some _ => if r_local_opret r then 0 else final_local v r
+             | None => final_local v r end, r_local_script r)]) ++
+     (if final_remote v r <? v_remote_dust v then []
+      else [(match r_sequence r with
+             | Some _ => if r_remote_opret r then 0 else final_remote v r
+             | None => final_remote v r end, r_remote_script r)])) /\
+  Sorted out_leP (d_outs d) /\
+  d_version d = 2 /\
+  d_sequence d = match r_sequence r with
+                 | Some s => s
+                 | None => if v_taproot v then max_rbf_sequence else max_tx_in_sequence
+                 end /\
+  d_locktime d = match r_locktime r with Some l => l | None => 0 end.
+Proof.
+  intros v r d b HR HP.
+  pose proof (exact_balances v r d b HR HP) as H.
+  unfold local_out, remote_out in H. rewrite !side_out_spec in H. exact H.
+Qed.
+
+Lemma negotiation_round_bound_log2 : forall a b cap_o cap_r aff_o aff_r m,
+  100 <= a -> 100 <= b ->
+  Z.max a b <= cap_o -> Z.max a b <= aff_o -> Z.max a b <= aff_r ->
+  Z.max a b < 2 ^ 60 ->
+  Z.max a b <= Z.min a b * 2 ^ Z.of_nat m ->
+  exists f rounds,
+    (rounds <= 8 * m + 4)%nat /\ Z.min a b <= f <= Z.max a b /\
+    forall fuel, (8 * m + 4 <= fuel)%nat ->
+      let s := sys_run fuel (sys_start false a cap_o aff_o b cap_r aff_r) in
+      agreed_on s f /\ sys_msg s = None /\ sys_rounds s = rounds.
+Proof.
+  intros a b cap_o cap_r aff_o aff_r m Ha Hb H1 H2 H3 H4 H5.
+  apply negotiation_terminates; auto.
+  apply close_enough_log2; auto.
+  apply Z.min_glb_lt; apply Z.lt_le_trans with 100; auto; reflexivity.
+Qed.
+
+Section Signatures.
+  Variables (sk pk msg sig : Type).
+  Variable pub : sk -> pk.
+  Variable digest : descriptor -> msg.
+  Variable sign : sk -> msg -> sig.
+  Variable verify : pk -> msg -> sig -> bool.
+  Hypothesis verify_sign : forall k m, verify (pub k) m (sign k m) = true.
+
+  Lemma signatures_verify : forall v r d b d' b' ka kb,
+    close_proposal v r = inr (d, b) ->
+    close_proposal (mirror_view v) (mirror_req r) = inr (d', b') ->
+    verify (pub ka) (digest d') (sign ka (digest d)) = true /\
+    verify (pub kb) (digest d) (sign kb (digest d')) = true.
+  Proof.
+    intros v r d b d' b' ka kb H1 H2.
+    pose proof (same_tx v r) as S. rewrite H1, H2 in S. subst d'.
+    split; apply verify_sign.
+  Qed.
+End Signatures.
+
+Lemma ratchet_stuck_refuted :
+  (forall x up, 0 <= x < 10 -> ratchet_fee x up = x) /\
+  exists a b cap aff,
+    0 < a <= cap /\ 0 < b <= cap /\ cap <= aff /\
+    forall fuel,
+      let s := sys_run fuel (sys_start false a cap aff b cap aff) in
+      agreedb s = None /\ sys_err s = None /\ sys_msg s <> None.
+Proof.
+  split; [exact ratchet_identity_below_10|].
+  exists 1, 5, 1000, 1000. repeat split; try reflexivity; try discriminate;
+    apply (stuck_forever fuel).
+Qed.
